@@ -312,4 +312,6 @@ def weak_wrapper(prog: Program) -> RuleResult:
 
 
 def run(prog: Program, tier: str) -> List[RuleResult]:
-    return [strong_ref(prog), weak_wrapper(prog), c14.sg_coherence(prog), c14.idkey(prog)]
+    from . import c13
+
+    return [strong_ref(prog), weak_wrapper(prog), c14.sg_coherence(prog), c14.idkey(prog), c14.sg_purge_directions(prog), c13.sg_sweep(prog)]
